@@ -32,7 +32,7 @@ class Sim:
             self.active[g] = True
             self.nact[g] += 1
             return 0
-        if kind == "grain_pill":
+        if kind in ("grain_pill", "grain_pill2"):
             g = d[1]
             if self.phase != 0 or not self.active[g]:
                 return 1
@@ -72,7 +72,7 @@ class Sim:
 
 
 COQ = {"spawn": "DSpawn %d %d", "spawn_gated": "DSpawnGated %d %d", "spawn_release": "DSpawnRelease %d", "activate": "DActivate %d",
-       "grain_pill": "DUserPill %d", "tell": "DTell %d", "tell_hold": "DTell %d", "stop": "DStop"}
+       "grain_pill": "DUserPill %d", "grain_pill2": "DUserPill2 %d", "tell": "DTell %d", "tell_hold": "DTell %d", "stop": "DStop"}
 
 
 def coq_action(d):
@@ -81,7 +81,7 @@ def coq_action(d):
 
 CORPUS = [
     # three-level tree, two grains (one poisoned by user code before), sends before and after the gate
-    (5, 2, [["spawn", 0, 1], ["spawn", 1, 2], ["spawn", 1, 3], ["spawn", 3, 4], ["activate", 0], ["activate", 1], ["grain_pill", 1],
+    (5, 2, [["spawn", 0, 1], ["spawn", 1, 2], ["spawn", 1, 3], ["spawn", 3, 4], ["activate", 0], ["activate", 1], ["grain_pill2", 1],
             ["tell", 4], ["stop"], ["tell", 4], ["tell", 1], ["activate", 0], ["grain_pill", 0]], "plain"),
     # a handler is still running when Stop is called and when it returns
     (3, 1, [["spawn", 0, 1], ["spawn", 1, 2], ["activate", 0], ["tell_hold", 2], ["stop"], ["tell", 2]], "handler-held"),
@@ -124,7 +124,7 @@ def gen_scenarios(ctx, ws=True):
             if r < 0.5 and n > 1:
                 extra.append(["tell", rng.randrange(1, n)])
             elif r < 0.7 and k:
-                extra.append(["grain_pill", rng.randrange(k)])
+                extra.append([rng.choice(["grain_pill", "grain_pill2"]), rng.randrange(k)])
             elif k:
                 extra.append(["activate", rng.randrange(k)])
         script += extra
